@@ -258,6 +258,10 @@ def check_grammar(rep, wf, cls):
         # repetition: once per agent of the section, in order
         ok_rep = len(line.chain) == 1 and line.chain[0][1] == TRUE and line.chain[0][0][3][0] == 'call' and line.chain[0][0][3][1] == S('range') \
             and len(line.chain[0][0][3][2]) == 1 and wf.role(line.chain[0][0][3][2][0]) == frozenset([cnt])
+        if ok_rep:
+            # ... exactly that many: the bound is the count itself (a parameter, or the length of a list), not count - 1 / count + 1
+            bound = line.chain[0][0][3][2][0]
+            ok_rep = bound[0] in ('sym', 'attr') or (bound[0] == 'call' and bound[1] == S('len'))
         rep.check(ok_rep, 'C08.R2', w, '%s: one line per agent, %s of them' % (name, cnt), got=[show(b[3]) for b, g in line.chain], want='for x in range(%s)' % cnt,
                   construct='%s %s repetition' % (cls, name))
         if not line.chain:
@@ -298,8 +302,18 @@ def check_grammar(rep, wf, cls):
                 for prob in list_alt_problems(fld):
                     rep.fail('C08.R2', w, '%s line: the preference tokens are written exactly when the side has preference lists' % name, got=prob, want='tokens iff the lists exist',
                              construct='%s %s list written under the inverted condition' % (cls, name))
-                joined = any((isinstance(x, doc.Rep) and x.sep == ' ') or (isinstance(x, doc.Hole) and x.sep == ' ') or (isinstance(x, doc.Alt)) for x in fld)
-                rep.check(joined, 'C08.R2', w, 'preference tokens are separated by single spaces', got=[type(x).__name__ for x in fld], construct='%s %s token separator' % (cls, name))
+                def seps(items):
+                    out_ = []
+                    for x in items:
+                        if isinstance(x, (doc.Rep, doc.Hole)) and getattr(x, 'sep', None) is not None:
+                            out_.append(x.sep)
+                        elif isinstance(x, doc.Alt):
+                            out_ += seps(x.a) + seps(x.b)
+                    return out_
+                sp = seps([x for x in fld if not isinstance(x, str)])
+                joined = bool(sp) and all(s_ == ' ' for s_ in sp)
+                rep.check(joined, 'C08.R2', w, 'preference tokens are separated by single spaces', got='separators %s' % sorted(set(repr(s_) for s_ in sp)) if sp else [type(x).__name__ for x in fld],
+                          want="' '.join(tokens)", construct='%s %s token separator' % (cls, name))
                 continue
             if len(ts) != 1 or ts[0][0] != 'hole':
                 rep.fail('C08.R2', w, '%s field %d is a single value' % (name, k), got=[x[0] for x in ts], construct='%s %s field %d fused' % (cls, name, k))
@@ -524,6 +538,26 @@ def check_sampling(rep, repo):
         rep.inconclusive('C08.R5', g.where, 'the list-drawing function is inside the interpreted fragment', got=str(u))
         return
     pmin, pmax = S(g.params[2]), S(g.params[3])
+    # one list per first-side agent: the result has exactly n1 entries, every one of them drawn
+    n1_ = S(g.params[0])
+    lists_t = rv[1][0] if (rv[0] == 'tuple' and rv[1]) else rv
+    def range_is_n1(d):
+        return d[0] == 'call' and d[1] == S('range') and ((len(d[2]) == 1 and d[2][0] == n1_) or (len(d[2]) == 2 and d[2][0] == C(0) and d[2][1] == n1_))
+    counts = []
+    if lists_t[0] == 'accum':
+        pre = lists_t[1]
+        if pre[0] == 'comp' and len(pre[1]) == 1:
+            counts.append(pre[1][0][0][3])
+        elif pre[0] == 'bin' and pre[1] == 'Mult':
+            counts.append(CALL(S('range'), [pre[3] if pre[2][0] == 'list' else pre[2]]))
+        for op_, idx_, val_, ch_ in lists_t[2]:
+            if op_ in ('setidx', 'append') and len(ch_) == 1:
+                counts.append(ch_[0][0][3])
+    elif lists_t[0] == 'comp' and len(lists_t[1]) == 1:
+        counts.append(lists_t[1][0][0][3])
+    if counts:
+        rep.check(all(range_is_n1(d) for d in counts), 'C08.R5', g.where, 'one preference list is drawn for each of the n1 first-side agents', got=[show(d)[:40] for d in counts],
+                  want='range(%s)' % g.params[0], construct='number of first-side lists ' + ', '.join(show(d)[:30] for d in counts))
     draws = []
     lengths = []
     seen = set()
